@@ -42,7 +42,8 @@ XS = 'http://www.w3.org/2001/XMLSchema'
 MARK = 'ZZEXPANDEDMARKERZZ'
 MODES = ('always', 'remote', 'nonlocal', 'never')
 KINDS = ('str', 'bytes', 'StringIO', 'BytesIO', 'text_file', 'binary_file', 'raw_nonseekable', 'buffered_nonseekable',
-         'path', 'file_url', 'remote_url', 'remote_url_nopath', 'remote_url_query', 'remote_url_port', 'remote_url_root', 'remote_response')
+         'path', 'file_url', 'remote_url', 'remote_url_nopath', 'remote_url_query', 'remote_url_port', 'remote_url_root', 'remote_response',
+         'remote_url_two_faced', 'remote_url_two_faced_wrapped')
 # remote URLs with an empty path component (the base URL of such a resource is not a directory URL)
 REMOTE_SHAPES = {'remote_url_nopath': 'http://vk.example', 'remote_url_query': 'http://vk.example?doc=1',
                  'remote_url_port': 'http://vk.example:8080', 'remote_url_root': 'http://vk.example/'}
@@ -163,6 +164,7 @@ class StubOpener(urllib.request.OpenerDirector):
     def __init__(self):
         super().__init__()
         self.bodies = {}
+        self.sequences = {}
         self.asked = []
         o = urllib.request.OpenerDirector()
         o.add_handler(urllib.request.FileHandler())
@@ -174,6 +176,16 @@ class StubOpener(urllib.request.OpenerDirector):
         self.asked.append(url)
         if url.lower().startswith('file:'):
             return self._file.open(url)
+        if url in self.sequences:
+            # a server that answers every request differently; the responses cannot be rewound
+            seq = self.sequences[url]
+            body = seq.pop(0) if len(seq) > 1 else seq[0]
+            if 'twofaced_http/' in url:
+                # like http.client.HTTPResponse: a buffered, non-seekable stream that knows its URL
+                resp = BufferedNonSeekable(body)
+                resp.url = url
+                return resp
+            return urllib.response.addinfourl(RawNonSeekable(body), {}, url)
         if url in self.bodies:
             return urllib.response.addinfourl(io.BytesIO(self.bodies[url]), {}, url)
         raise urllib.error.URLError('stub: not found ' + url)
@@ -239,6 +251,15 @@ def run_cell(xmlschema, probes_counter, fx_dir, mode, role, kind, pname, payload
             return 'file://' + urllib.request.pathname2url(path)
         if k == 'remote_url':
             return REMOTE + os.path.basename(path)
+        if k in ('remote_url_two_faced', 'remote_url_two_faced_wrapped'):
+            # the first response carries the payload, every later one is the clean document of the same role; the
+            # response is a buffered stream (as for http URLs) or a wrapper that is not an io stream (addinfourl)
+            if role not in ('instance', 'main_schema') or not declares:
+                return None
+            clean = document(role, '', '', encoding)[1]
+            u = REMOTE + ('twofaced_http/' if k == 'remote_url_two_faced' else 'twofaced/') + os.path.basename(path)
+            opener.sequences[u] = [data, clean]
+            return u
         if k == 'remote_response':
             # what urlopen() returns for a remote URL: a stream that knows its remote URL
             return urllib.response.addinfourl(io.BytesIO(data), {}, REMOTE + os.path.basename(path)) \
@@ -387,6 +408,11 @@ def judge(res, xmlschema, counter, fx_dir, cell, payload, result, events):
         if declares == 'skippable' and raised and raised != 'forbidden' and 'undefined entity' in (result.get('msg') or '') \
                 and not expanded and not fetched:
             res.count('skippable_declaration:refused_as_undefined_entity')
+            return
+        if raised != 'forbidden' and kind.startswith('remote_url_two_faced'):
+            res.violation('double-opening:the-response-parsed-is-not-the-response-checked' +
+                          (':response-object-that-is-not-an-io-stream' if kind.endswith('wrapped') else ''), cell,
+                          f'{cell}: outcome {raised or "parsed"}; expanded={expanded}')
             return
         if raised != 'forbidden' and kind == 'remote_response' and mode == 'remote':
             res.violation('remote-response-object-not-treated-as-remote-data', cell,
